@@ -76,11 +76,14 @@ RecvQuery(st, ev, h) ==
     [] OTHER -> st                                         \* unknown statement: ignored
 
 \* m is what the table mapper answers for the announced table: ok | err | mismatch
+\* the mapper is (at least) consulted when the id is new or now names another table
+Consults(st, ev) ==
+  IF ~HasTable(st, ev.tbl.id) THEN TRUE
+  ELSE LET t == st.tables[TableOf(st, ev.tbl.id)].tbl IN t.db # ev.tbl.db \/ t.name # ev.tbl.name
+
 RecvTableMap(st, ev, m) ==
   LET known   == HasTable(st, ev.tbl.id)
-      \* the mapper is (at least) consulted when the id is new or now names another table
-      consult == IF ~known THEN TRUE
-                 ELSE LET t == st.tables[TableOf(st, ev.tbl.id)].tbl IN t.db # ev.tbl.db \/ t.name # ev.tbl.name
+      consult == Consults(st, ev)
   IN IF known /\ "staleTable" \in Defects THEN st        \* keeps the first table forever
      ELSE IF consult /\ m = "err" THEN Fail(st, "mapper")
      ELSE IF consult /\ m = "mismatch"
